@@ -113,6 +113,7 @@ def __set_ie__(v): _rt.ignore_errors(v)
 def __set_res__(r): __import__("pysnark.fixedpoint").fixedpoint.resolution = r
 def __set_bl__(b): _rt.bitlength = b
 def __cv__(c): return 0
+def __setenv__(name, value): os.environ[name] = value
 def __packinfo__(n, packer, bits): _side({"ev": "packed", "nbits": len(bits)})
 def __packout__(n, out): pass
 def __term__(mode): _side({"ev": "term", "mode": mode, "trace": _dump()})
